@@ -149,13 +149,13 @@ pub fn make_client(spec: &Spec, parts: &Parts, suite: CipherSuite) -> Client<imp
         .build()
 }
 
-pub fn make_observer(jitter: Option<u64>, signer: Option<(SignatureSecretKey, SigningIdentity)>) -> ExternalClient<impl ExternalMlsConfig> {
+pub fn make_observer(jitter: Option<u64>, signer: Option<(SignatureSecretKey, SigningIdentity)>, cache: bool) -> ExternalClient<impl ExternalMlsConfig> {
     let b = ExternalClient::builder()
         .crypto_provider(VProvider { kind: Kind::OpenSsl, log: Arc::new(Mutex::new(Vec::new())) })
         .identity_provider(BasicIdentityProvider)
         .custom_proposal_types([mls_rs::group::proposal::ProposalType::new(0xF001)])
         .extension_type(mls_rs::extension::ExtensionType::new(0xF010))
-        .cache_proposals(true);
+        .cache_proposals(cache);
     let b = match jitter {
         Some(j) => b.max_epoch_jitter(j),
         None => b,
@@ -192,7 +192,8 @@ fn prop_kind(p: &Proposal) -> &'static str {
 pub struct World<C: MlsConfig, E: ExternalMlsConfig> {
     pub observers: BTreeMap<String, ExternalGroup<E>>,
     pub obs_signer: BTreeMap<String, String>,
-    pub mk_obs: Box<dyn Fn(Option<u64>, Option<(SignatureSecretKey, SigningIdentity)>) -> ExternalClient<E>>,
+    pub mk_obs: Box<dyn Fn(Option<u64>, Option<(SignatureSecretKey, SigningIdentity)>, bool) -> ExternalClient<E>>,
+    pub obs_nocache: std::collections::BTreeSet<String>,
     pub suite: CipherSuite,
     pub members: BTreeMap<String, Member<C>>,
     pub msgs: HashMap<String, Vec<u8>>,
@@ -774,7 +775,7 @@ impl<C: MlsConfig, E: ExternalMlsConfig + Clone> World<C, E> {
                         let obs = |gi: &[u8], t: Option<&Vec<u8>>| -> Result<Result<Vec<u8>, String>, ()> {
                             let gm = match MlsMessage::from_bytes(gi) { Ok(x) => x, Err(_) => return Ok(Err("decode".into())) };
                             let tr = match t { Some(tb) => match ExportedTree::from_bytes(tb) { Ok(x) => Some(x.into_owned()), Err(_) => return Ok(Err("decode_tree".into())) }, None => None };
-                            catch_unwind(AssertUnwindSafe(|| mk(None, None).observe_group(gm, tr, None).map(|g| g.group_context().mls_encode_to_vec().unwrap_or_default()).map_err(|e| err_name(&e)))).map_err(|_| ())
+                            catch_unwind(AssertUnwindSafe(|| mk(None, None, true).observe_group(gm, tr, None).map(|g| g.group_context().mls_encode_to_vec().unwrap_or_default()).map_err(|e| err_name(&e)))).map_err(|_| ())
                         };
                         let gres = obs(&ggi, gtree.as_ref());
                         for (name, bytes) in variants.iter() {
@@ -1024,7 +1025,11 @@ impl<C: MlsConfig, E: ExternalMlsConfig + Clone> World<C, E> {
                 if let Some(n) = op["signer_of"].as_str() {
                     self.obs_signer.insert(who.clone(), n.to_string());
                 }
-                let ec = (self.mk_obs)(op["jitter"].as_u64(), signer);
+                // "no_cache": an observer that does not keep the proposals it sees (it still has to know its own)
+                if op["no_cache"].as_bool().unwrap_or(false) {
+                    self.obs_nocache.insert(who.clone());
+                }
+                let ec = (self.mk_obs)(op["jitter"].as_u64(), signer, !self.obs_nocache.contains(&who));
                 let g = mls!(ec.observe_group(gi, tree, None));
                 self.observers.insert(who.clone(), g);
                 Ok(json!({}))
@@ -1177,7 +1182,7 @@ impl<C: MlsConfig, E: ExternalMlsConfig + Clone> World<C, E> {
                 let b = self.msgs.get(op["snap"].as_str().unwrap_or("")).cloned().ok_or("no snapshot")?;
                 let snap = mls!(ExternalSnapshot::from_bytes(&b));
                 let signer = self.obs_signer.get(&who).and_then(|n| self.members.get(n)).map(|m| (m.signer.clone(), m.identity.clone()));
-                let ec = (self.mk_obs)(op["jitter"].as_u64(), signer);
+                let ec = (self.mk_obs)(op["jitter"].as_u64(), signer, !self.obs_nocache.contains(&who));
                 let g2 = mls!(ec.load_group(snap));
                 self.observers.insert(who.clone(), g2);
                 Ok(json!({}))
@@ -1195,7 +1200,7 @@ impl<C: MlsConfig, E: ExternalMlsConfig + Clone> World<C, E> {
                 let b = mls!(g.snapshot().to_bytes());
                 let snap = mls!(ExternalSnapshot::from_bytes(&b));
                 let signer = self.obs_signer.get(&who).and_then(|n| self.members.get(n)).map(|m| (m.signer.clone(), m.identity.clone()));
-                let ec = (self.mk_obs)(op["jitter"].as_u64(), signer);
+                let ec = (self.mk_obs)(op["jitter"].as_u64(), signer, !self.obs_nocache.contains(&who));
                 let g2 = mls!(ec.load_group(snap));
                 self.observers.insert(who.clone(), g2);
                 Ok(json!({"bytes": b.len()}))
@@ -1206,9 +1211,9 @@ impl<C: MlsConfig, E: ExternalMlsConfig + Clone> World<C, E> {
     }
 }
 
-pub fn run_world<C: MlsConfig, E: ExternalMlsConfig + Clone + 'static>(script: &Value, mk: &dyn Fn(&Spec, &Parts, CipherSuite) -> Client<C>, mk_obs: fn(Option<u64>, Option<(SignatureSecretKey, SigningIdentity)>) -> ExternalClient<E>, dir: &std::path::Path) -> i32 {
+pub fn run_world<C: MlsConfig, E: ExternalMlsConfig + Clone + 'static>(script: &Value, mk: &dyn Fn(&Spec, &Parts, CipherSuite) -> Client<C>, mk_obs: fn(Option<u64>, Option<(SignatureSecretKey, SigningIdentity)>, bool) -> ExternalClient<E>, dir: &std::path::Path) -> i32 {
     let suite = CipherSuite::from(script["suite"].as_u64().unwrap_or(1) as u16);
-    let mut world = World { observers: BTreeMap::new(), obs_signer: BTreeMap::new(), mk_obs: Box::new(mk_obs), suite, members: BTreeMap::new(), msgs: HashMap::new(), trees: HashMap::new(), intern: Intern { map: HashMap::new() } };
+    let mut world = World { observers: BTreeMap::new(), obs_signer: BTreeMap::new(), obs_nocache: Default::default(), mk_obs: Box::new(mk_obs), suite, members: BTreeMap::new(), msgs: HashMap::new(), trees: HashMap::new(), intern: Intern { map: HashMap::new() } };
     for m in script["members"].as_array().cloned().unwrap_or_default() {
         let spec = Spec {
             name: m["name"].as_str().unwrap_or("?").to_string(),
